@@ -1,0 +1,12 @@
+//go:build verif
+
+package schema
+
+import "github.com/cloudwego/eino/internal/verifhook"
+
+// VerifInstall installs the simulation kernel's callbacks (verif builds only).
+func VerifInstall(y, spawn, enter func(string), exit func(), ev func(string, string), poll func(int) []int,
+	order func(int, func(i, j int) bool, func(i, j int))) {
+	verifhook.YFn, verifhook.SpawnFn, verifhook.EnterFn, verifhook.ExitFn = y, spawn, enter, exit
+	verifhook.EvFn, verifhook.PollFn, verifhook.OrderFn = ev, poll, order
+}
